@@ -54,6 +54,15 @@ class V(object):
     __lt__ = __gt__ = __le__ = __ge__ = _op
 def tr(*a, **k):
     return V()
+def d():
+    return bool(V())
+def n():
+    return range(2)
+cm = V
+class E1(Exception):
+    pass
+class E2(Exception):
+    pass
 x = V(); y = V(); z = V(); w = V(); a = V(); b = V(); m = V(); G = V()
 '''
 
